@@ -44,6 +44,7 @@ func scenFinal(out *scenOut, r *rng, thorough bool) {
 	for _, u := range []int{1, 3} {
 		finalKilledDuringLastView(out, u, r.intn(2))
 	}
+	finalKillHoldsRenderer(out, r.intn(2))
 }
 
 // finalKilledDuringLastView: the quit message has been handled (Run's result is decided: a
@@ -318,4 +319,86 @@ type slowBuf struct{ b *safeBuffer }
 func (s *slowBuf) Write(p []byte) (int, error) {
 	time.Sleep(2 * time.Millisecond)
 	return s.b.Write(p)
+}
+
+// armedGate is a writer that, once armed, holds the first write containing `mark`.
+type armedGate struct {
+	b       *safeBuffer
+	mark    string
+	armed   int32
+	entered chan struct{}
+	release chan struct{}
+}
+
+func (g *armedGate) Write(p []byte) (int, error) {
+	if strings.Contains(string(p), g.mark) && atomic.CompareAndSwapInt32(&g.armed, 1, 2) {
+		close(g.entered)
+		<-g.release
+	}
+	return g.b.Write(p)
+}
+
+// finalKillHoldsRenderer: the program has quit (Run's result is decided: a clean quit), Run has
+// written the final view and is about to shut down; a Kill on another goroutine gets to the
+// renderer first and is slow inside it (it holds the renderer while its erase-line write is
+// going out). Run's own stop must still paint the final view, however long it has to wait.
+func finalKillHoldsRenderer(out *scenOut, shape int) {
+	ctl := newRecCtl()
+	buf := &safeBuffer{}
+	w := &armedGate{b: buf, mark: "\x1b[2K", entered: make(chan struct{}), release: make(chan struct{})}
+	ctl.viewOf = func(version, ups int) string { return finalView(shape, ups-1) }
+	ctl.onUpdate = func(m tea.Msg, v int) tea.Cmd {
+		if u, ok := m.(userMsg); ok && u.Sender == 0 && u.Seq == 1 {
+			return tea.Quit
+		}
+		return nil
+	}
+	var runHeld int32
+	reached := make(chan struct{})
+	goOn := make(chan struct{})
+	tea.VerifPauseHook = func(where string) {
+		if where == "sh: cancel" && atomic.CompareAndSwapInt32(&runHeld, 0, 1) {
+			close(reached) // Run's own shutdown (the first one to begin)
+			<-goOn
+		}
+	}
+	defer func() { tea.VerifPauseHook = nil }()
+	desc := fmt.Sprintf("quit; Run holds at the start of its shutdown with the final view written; Kill on another goroutine is slow inside the renderer; shape=%d", shape)
+	run := startProgram(ctl, nil, tea.WithOutput(w), tea.WithInput(nil), tea.WithoutSignalHandler(), tea.WithFPS(1))
+	run.p.Send(tea.WindowSizeMsg{Width: 80, Height: 24})
+	run.p.Send(userMsg{0, 0})
+	if !waitFor(3*time.Second, func() bool { return strings.Contains(buf.String(), "count 1") }) {
+		run.p.Kill()
+		run.wait(3 * time.Second)
+		return
+	}
+	run.p.Send(userMsg{0, 1}) // the last update: it quits
+	select {
+	case <-reached:
+	case <-time.After(3 * time.Second):
+		run.p.Kill()
+		run.wait(3 * time.Second)
+		return
+	}
+	painted := strings.Contains(buf.String(), "count 2") // (a tick got in between: nothing left to test)
+	atomic.StoreInt32(&w.armed, 1)
+	killDone := make(chan struct{})
+	go func() { run.p.Kill(); close(killDone) }()
+	select {
+	case <-w.entered:
+	case <-time.After(3 * time.Second):
+	}
+	close(goOn)
+	time.Sleep(80 * time.Millisecond) // Run's stop is now waiting for (or has skipped past) the renderer
+	close(w.release)
+	<-killDone
+	out.record("final-kill-holds-renderer", desc)
+	if !run.wait(8 * time.Second) {
+		out.fail(finding{Property: "C07", Class: "new", What: "Run did not return after quit (a Kill was slow inside the renderer)", Input: desc})
+		return
+	}
+	if painted || errClass(run.err) != "nil" {
+		return
+	}
+	checkFinalScreen(out, desc, buf.String(), finalView(shape, 2), 80, 24)
 }
